@@ -34,6 +34,10 @@ def handleLine (payload : String) : String :=
       let sg := if headerSize ≤ b.length then digest (signedMsg b) else "na"
       s!"fb={fb} fbu={fbu} frp={frp} sg={sg}"
     | _, _ => "bad-input"
+  | ["res", _kind, hk, st, hbody, vb] =>
+    match bytesOfHex hk, st.toNat?, bytesOfHex hbody, envOfBits vb with
+    | some k, some st, some body, some E => s!"rs={renderResolve E (resolveViaRelay E k st body)}"
+    | _, _, _, _ => "bad-input"
   | ["p", hpk, hsig, ts, hdns, vb] =>
     match bytesOfHex hpk, bytesOfHex hsig, ts.toNat?, bytesOfHex hdns, envOfBits vb with
     | some pk, some sig, some ts, some dns, some E =>
